@@ -4,7 +4,7 @@ ENGINES = [
 ]
 NOTES = "All checks: ./run.sh <id> quick|thorough rebuilds the harness against /repo's working tree (replace directive) and rewrites evidence/<id>.json. known_findings.json is read-only at run time."
 NOT_YET = {}
-ENGINES.append({"name": "E2-regen", "path": "/verif/internal/regen, /verif/drivers", "serves_properties": ["C03", "C05", "C09", "C14", "C20"],
+ENGINES.append({"name": "E2-regen", "path": "/verif/internal/regen, /verif/drivers", "serves_properties": ["C03", "C04", "C05", "C09", "C14", "C20"],
      "kind_free_text": "regenerate-compile-drive pipeline: specs are generated in process by the generator of the tree under check into a scratch module, compiled with a driver and every case of the bounded space is executed on the regenerated code"})
 CHECKS["C12"] = dict(
     category="exploration", engine="E1-enum",
@@ -77,4 +77,11 @@ CHECKS["C09"] = dict(
     technique="complete enumeration of requirement structures over <= 3 schemes x all 4^n credential outcome vectors on a regenerated server against an OR-of-AND model; credential equality through the regenerated client",
     text="One regenerated client+server with 274 operations: all 255 non-empty sets of alternatives over three apiKey schemes (header, query, cookie), five operations over 20 schemes whose alternatives straddle bitmask indices 7/8 and 15/16, `security: []`, an operation inheriting the global requirement, and 12 operations over basic, bearer, oauth2 (three scope sets) and mixed kinds. Every operation is driven with all 4^n vectors over {absent, accepted, skipped, hard-rejected} (wide ones: one-hot / all-but-one on three backgrounds and all boundary triples): handler invoked <=> model, otherwise 401; the SecurityHandler sees exactly the presented credential, the right operation name and the operation's oauth2 scopes. Through the generated client, 16 credential values per scheme kind must arrive unchanged.",
     note="A hard reject (non-skip error) aborts with 401 even if another alternative is satisfied: treated as the documented contract of ErrSkipServerSecurity and counted (hard_reject_vectors_with_satisfied_alternative), see DESIGN.md C09. One known finding: apiKey in cookie is not escaped. More than 3 schemes are not exhaustive (structured vectors).",
+)
+
+CHECKS["C04"] = dict(
+    category="exploration", engine="E2-regen",
+    technique="schema-directed bounded-exhaustive enumeration of Go values of regenerated types (and of valid JSON instances) with encode/validate/decode oracles against reference models",
+    text="Every schema S of the C03 grammar plus 34 format/default/map leaves becomes a root object {v: S, o: S optional, n: S nullable optional}; 362 (quick) / ~880 (thorough) root types are regenerated. A schema-directed reflective builder enumerates their values: Opt/Nil/OptNil wrappers in every state, nil / empty / 1-3 element slices incl. duplicates, every sum variant and enum value, boundary and extreme numbers, escape-heavy / Unicode / NUL strings, format values at resolution, zero values; single-field variation over a valid base (pairs in thorough): 1.6e4 / 2e5 values. For every value passing its own Validate(): Encode is well-formed JSON (independent parser), valid under the reference validator for the source schema, Decode succeeds and deep-equals (absent/null/present, nil vs empty where nil has a JSON meaning, selected variant), re-encoding is a semantic fixpoint. JSON-first: valid pool instances are decoded, validated and re-encoded to the same value.",
+    note="Trusted: internal/jsonref, drivers/refval. Identifications (DESIGN.md C04): nil == empty for maps, for slices without nil semantics and inside nullness-carrying wrappers; unset member with a default decodes as the default; zero values a format cannot represent are outside the domain. Two known findings (zero sum encodes to nothing; property counts validated by the decoder only).",
 )
